@@ -748,8 +748,15 @@ Definition check_time (c : ttable * list top * list (Z * arr)) : Z :=
      hand       c08_object_cache_handout   every read is memoised in the object (emptied by item assignment to it or
                                            to the object it is linked to, and by attaching another `other`) and
                                            p.kepler / p.trs hand out the memo entry itself
-   kinds: 3 TrsPosVel, 4 KeplerPosVel, 5 TrsPositionDelta, 6 TrsPosition (used as ref_pos).
-   reads: 1 pos, 2 vel, 3 the other system, 4 trs2acr, 5 distance, 6 elevation (5, 6 need `other`), 8 delta.enu *)
+   kinds: 3 TrsPosVel, 4 KeplerPosVel, 5 TrsPositionDelta, 6 TrsPosition (used as ref_pos),
+          7 EnuPosVelDelta, 8 AcrPosVelDelta (ref_pos = a TrsPosVel; enu <-> acr goes over trs: two hops).
+   reads: 1 pos, 2 vel, 3 the other system, 4 trs2acr, 5 distance, 6 elevation (5, 6 need `other`), 8 delta.enu,
+          11 / 12 / 13 = .trs / .acr / .enu of a PosVelDelta (reads >= 11 and 8 need ref_pos) *)
+(* reads that are functions of the object AND the object it is linked to *)
+Definition pv_linked (what : Z) : bool := (what =? 5) || (what =? 6) || (what =? 8) || (11 <=? what).
+(* reads of a delta (they depend on ref_pos) *)
+Definition pv_delta_read (what : Z) : bool := (what =? 8) || (11 <=? what).
+Definition pv_is_delta (kind : Z) : bool := (kind =? 5) || (7 <=? kind).
 Definition pvobj : Type := (Z * arr * option Z * list (Z * arr))%type.    (* kind, contents, linked slot, memo *)
 Definition pvworld : Type := (list (Z * pvobj) * option Z)%type.          (* objects; slot whose conversion memo the last result is *)
 
@@ -785,7 +792,7 @@ Section PVMachine.
   Definition memo_put (s : Z) (what : Z) (v : arr) (w : list (Z * pvobj)) : list (Z * pvobj) :=
     pv_update s (fun x => let '(k, a, l, m) := x in (k, a, l, (what, v) :: m)) w.
 
-  Definition use_memo (what : Z) : bool := hand || (stale_ref && (what =? 8)).
+  Definition use_memo (what : Z) : bool := hand || (stale_ref && pv_delta_read what).
 
   (* item assignment to s: its own memo goes, and the memo of everything that has s as other / ref_pos *)
   Definition pv_assign (s : Z) (mode : Z) (v : list Z) (w : list (Z * pvobj)) : list (Z * pvobj) :=
@@ -793,7 +800,7 @@ Section PVMachine.
               let '(kd, a, l, m) := o in
               if k =? s then (kd, set_rows mode v a, l, [])
               else match l with
-                   | Some t => if (t =? s) && negb (stale_ref && (kd =? 5)) then (kd, a, l, []) else o
+                   | Some t => if (t =? s) && negb (stale_ref && pv_is_delta kd) then (kd, a, l, []) else o
                    | None => o
                    end) w.
 
@@ -842,7 +849,7 @@ Section PVMachine.
             match (if use_memo what then assoc_z what m else None) with
             | Some v => ((w, r1), Some (v, 0))
             | None =>
-                if (what =? 5) || (what =? 6) || (what =? 8) then
+                if pv_linked what then
                   match l with
                   | None => ((w, None), Some (([], []), -2))
                   | Some t =>
